@@ -144,9 +144,15 @@ def drive(a, rng):
             rec = dict(root=root, labels=labels, labelled=labelled, withlen=1 if withlen else 0, prec_effective=prec_eff, raised=0, pre=[], close=1)
             try:
                 text = tree.as_newick(**kw)
-                rec["pre"] = tokenise(text, prec_eff, tscale, labels)
+                try:
+                    rec["pre"] = tokenise(text, prec_eff, tscale, labels)
+                    parsed = preorder(parse_newick(text), [])
+                except Exception:  # noqa: BLE001 - text that is not Newick at all: a value no expectation equals, not a harness failure
+                    rec["pre"] = [[-99, -99, -99, -99]]
+                    rec["close"] = 0
+                    rec["malformed"] = text[:200]
+                    parsed = []
                 # numeric closeness of every printed length to the true time difference (trusted: Decimal arithmetic)
-                parsed = preorder(parse_newick(text), [])
                 order = [int(u) for u in tree.nodes(root, order="preorder")]
                 if withlen and len(parsed) == len(order):
                     for (lab, ln, ch), u in zip(parsed, order):
@@ -171,11 +177,15 @@ def drive(a, rng):
         case_single = len(roots) == 1
         try:
             t0 = tree.as_newick()
-            ok = case_single and parse_newick(t0) is not None
         except ValueError:
             ok = not case_single
         except tskit.LibraryError:
             ok = False
+        else:
+            try:
+                ok = case_single and parse_newick(t0) is not None
+            except Exception:  # noqa: BLE001 - not Newick
+                ok = False
         tr["noroot_ok"] = 1 if ok else 0
         case["trees"].append(tr)
     # Nexus
